@@ -298,6 +298,19 @@
 #define M_CELL_QP(m) (*(G_P == G_Q ? (m).valPQ : (m).valQP))
 #define M_HAS_PQ(m) ((m).s.hasPQ)
 #define M_HAS_QP(m) (G_P == G_Q ? (m).s.hasPQ : (m).s.hasQP)
+/* the label of the undirected pair in u is the label of one of the directed edges between them in d */
+#define U_LABEL_FROM_X(u, d, EQ)                                              \
+  ((M_HAS_PQ((d)->edgeLabels) && EQ(U_VAL(u), M_CELL_PQ((d)->edgeLabels))) || \
+   (M_HAS_QP((d)->edgeLabels) && EQ(U_VAL(u), M_CELL_QP((d)->edgeLabels))))
+/* a by-value cursor walking row i_ of the (unchanged) graph d */
+#define IT_WALKS(it_, d, i_)                                                  \
+  (!(it_).poisoned && (it_).idx == (bg_size)(i_) && (it_).bound <= (d)->size && BG_CNT_AX((it_).r, (it_).idx) && \
+   IT_P_AX(it_) && BG_IT_CUR_OK(it_) &&                                       \
+   ((bg_size)(i_) != G_P || IT_SPLIT_OF(it_, (d)->adjacencyList.rowP->c)) &&  \
+   ((bg_size)(i_) != G_Q || G_P == G_Q || IT_SPLIT_OF(it_, (d)->adjacencyList.rowQ->c)))
+/* copies of (G_P,G_Q) / (G_Q,G_P) of d among the entries such a cursor has passed */
+#define IT_PASSED_PQ(it_, i_) ((bg_size)(i_) == (bg_size)G_P ? C_NQ((it_).p) : (bg_size)0)
+#define IT_PASSED_QP(it_, i_) ((bg_size)(i_) == (bg_size)G_Q ? (it_).p.nP : (bg_size)0)
 /* observed entries of vector<size_t> / matrix results */
 #define V_AT_P(v) ((v).vP)
 #define V_AT_Q(v) (G_P == G_Q ? (v).vP : (v).vQ)
